@@ -16,7 +16,7 @@ PROPS["C14"] = dict(
           "F.R != 0 and E1 != E2. waiting_time: seeds x rate lists; Promotetime equals -ln(1-u)/k on the reproduced mt19937 stream, finite, "
           ">= 0, scales as 1/k; ChooseHoppingDest equals the tree lookup at 1-u; non-trivial = >= 2 different rates in the sequence."
           " huffman_measure also covers histories: in 35 % of the generated cases the tree is first built for a prefix of the events, "
-          "more events are added and the tree is rebuilt (KMCLifetime's sequence); the final tree is checked. Histories: trees rebuilt after adding events, trees first built for a longer list; the field handed to Rate_Engine through a variable that is reassigned afterwards while a second engine is alive."),
+          "more events are added and the tree is rebuilt (KMCLifetime's sequence); the final tree is checked. Histories: trees rebuilt after adding events, trees first built for a longer list; the field handed to Rate_Engine through a variable that is reassigned afterwards while a second engine is alive. Fields include weak ones (2^-28..2^-50 Ha/bohr)."),
     assumptions=COMMON_ASSUME + [
         "the field term is read with the physical sign: dE(1->2) = (E2-E1) - q F.(r2-r1), R() = r2-r1 (DESIGN C14 sign note)",
         "'equal forward/backward reorganisation energy' means equal TOTAL reorganisation energies; the outer-sphere part is a pair property "
